@@ -91,6 +91,19 @@ MUTANTS = [
     ("C06-setter-keeps-old-timer", "C06", "break", A, "        self._deadline = float(value)\n        if self._timeout_handle is not None:\n            self._timeout_handle.cancel()\n            self._timeout_handle = None\n", "        self._deadline = float(value)\n", "assigning a deadline does not re-arm"),
     ("C06-effective-deadline-break-before-min", "C06", "break", A, "            deadline = min(deadline, cancel_scope.deadline)\n            if cancel_scope._cancel_called:\n                deadline = -math.inf\n                break\n            elif cancel_scope.shield:\n                break\n            else:\n                cancel_scope = cancel_scope._parent_scope", "            if cancel_scope._cancel_called:\n                deadline = -math.inf\n                break\n            elif cancel_scope.shield:\n                break\n            else:\n                deadline = min(deadline, cancel_scope.deadline)\n                cancel_scope = cancel_scope._parent_scope", "a shielded scope's own deadline is dropped from current_effective_deadline()"),
     ("C06-fail-at-tests-cancel-called", "C06", "break", T, "    if cancel_scope.cancelled_caught and current_time() >= cancel_scope.deadline:", "    if cancel_scope.cancel_called and current_time() >= cancel_scope.deadline:", "TimeoutError although the scope did not absorb its own cancellation"),
+    # ---------------------------------------------------------------- C03 / C05 / C04(b) delivery walk
+    ("C03-cancel-skips-delivery", "C03", "break", A, "            if self._host_task is not None:\n                self._deliver_cancellation(self)\n\n    @property\n    def deadline", "            if self._host_task is not None:\n                pass\n\n    @property\n    def deadline", "cancel() only sets the flag, nothing is delivered"),
+    ("C03-no-reschedule", "C03", "break", A, "            if should_retry:\n                self._cancel_handle = get_running_loop().call_soon(\n                    self._deliver_cancellation, origin\n                )\n            else:\n                self._cancel_handle = None", "            self._cancel_handle = None", "the delivery callback never reschedules itself"),
+    ("C03-enter-skips-delivery", "C03", "break", A, "        if self._cancel_called:\n            self._deliver_cancellation(self)\n\n        return self", "        return self", "a scope cancelled before it is entered never delivers"),
+    ("C03-restart-ignores-existing-handle", "C03", "harmless", A, "                if scope._cancel_handle is None:\n                    scope._deliver_cancellation(scope)\n\n                break", "                scope._deliver_cancellation(scope)\n                break", "restart delivers even when a callback is already scheduled (extra delivery, nothing lost)"),
+    ("C03-restart-walks-through-shields", "C03", "break", A, "            # No point in looking beyond any shielded scope\n            if scope._shield:\n                break\n\n            scope = scope._parent_scope", "            scope = scope._parent_scope", "restart crosses a shield and restarts delivery in a scope whose cancellation is not visible"),
+    ("C03-cic-shield-first", "C03", "break", A, "            if cancel_scope.cancel_called:\n                await sleep(0)\n            elif cancel_scope.shield:\n                break", "            if cancel_scope.shield:\n                break\n            elif cancel_scope.cancel_called:\n                await sleep(0)", "checkpoint_if_cancelled lets a task pass inside a scope that is both shielded and cancelled"),
+    ("C03-cic-yields-once", "C03", "break", A, "            if cancel_scope.cancel_called:\n                await sleep(0)\n            elif cancel_scope.shield:", "            if cancel_scope.cancel_called:\n                await sleep(0)\n                break\n            elif cancel_scope.shield:", "checkpoint_if_cancelled yields once and then lets the task go on if the cancellation has not landed yet"),
+    ("C04-delivery-ignores-shield", "C04", "break", A, "            if not scope._shield and not scope.cancel_called:\n                should_retry", "            if not scope.cancel_called:\n                should_retry", "delivery descends into shielded child scopes"),
+    ("C05-counts-every-cancel", "C05", "break", A, "                    if (\n                        task is origin._host_task\n                        and origin._pending_uncancellations is not None\n                    ):\n                        origin._pending_uncancellations += 1", "                    if origin._pending_uncancellations is not None:\n                        origin._pending_uncancellations += 1", "cancel() calls on other tasks are counted as owed uncancellations of the host"),
+    ("C05-exit-forgets-uncancel", "C05", "break", A, "                while self._pending_uncancellations:\n                    self._host_task.uncancel()\n                    self._pending_uncancellations -= 1\n", "                self._pending_uncancellations = 0\n", "the exit of the cancelled scope no longer withdraws the host's cancellation requests"),
+    ("C05-finished-tasks-keep-the-callback-alive", "C05", "break", A, "            if task.done():\n                continue\n\n            should_retry = True\n            if task._must_cancel:", "            should_retry = True\n            if task.done():\n                continue\n\n            if task._must_cancel:", "issue #1111: a finished task that is still listed keeps the delivery callback rescheduling itself forever"),
+    ("C05-rename-loop-var", "C05", "harmless", A, "        for task in self._tasks:\n            # Always skip tasks that are already done (see issue #1111)\n            if task.done():\n                continue\n\n            should_retry = True\n            if task._must_cancel:  # type: ignore[attr-defined]\n                continue", "        for tsk in self._tasks:\n            task = tsk\n            # Always skip tasks that are already done (see issue #1111)\n            if task.done():\n                continue\n\n            should_retry = True\n            if task._must_cancel:  # type: ignore[attr-defined]\n                continue", "loop variable renamed"),
 ]
 
 
